@@ -758,21 +758,23 @@ class Bin(Factory, Container):
                 return np.linspace(self.high, self.high, num_bins + 1)
         # lowest edge
         if low is None or low < self.low:
+            minBin = 0
             low = self.low
         else:  # low >= self.low and low < self.high
             minBin = self.bin(low)
             low = self.low + self.bin_width() * minBin
         # highest edge
         if high is None or high >= self.high:
+            maxBin = len(self.values) - 1
             high = self.high
         else:  # high < self.high and high >= self.low
             maxBin = self.bin(high)
             if np.isclose(high, self.low + self.bin_width() * maxBin):
                 maxBin -= 1
             high = self.low + self.bin_width() * (maxBin + 1)
-        # new low and high values reset, so redo num_bins
-        num_bins = self.num_bins(low + np.finfo(float).eps, high - np.finfo(float).eps)
-        return np.linspace(low, high, num_bins + 1)
+        # new low and high values are attached to the edges of minBin and maxBin (re-deriving the bins from the
+        # recomputed edge values is off by one whenever such an edge is not exactly representable)
+        return np.linspace(low, high, maxBin - minBin + 2)
 
     def bin_centers(self, low=None, high=None):
         """Returns bin centers
